@@ -292,6 +292,13 @@ pub fn run(rep: &mut Rep) {
             }
         }
     }
+    for start in [1u16, 40_000] {
+        let id = format!("full-cycle:{start}");
+        idx += 1;
+        if rep.take(idx, &id) {
+            full_cycle_with_one_outstanding(rep, &id, start);
+        }
+    }
     idx += 1;
     if rep.take(idx, "refused-wrap-resume:real") {
         real_wrap_after_failed_exchange(rep, "refused-wrap-resume:real");
@@ -420,5 +427,95 @@ fn real_wrap_after_failed_exchange(rep: &mut Rep, id: &str) {
         rep.violation("C11/duplicate-packet-id/resent", id, &format!("identifier {aid}: QoS 2 exchange refused by PUBREC 0x97, {allocated} allocations later a QoS 1 publish carries it again and is unacknowledged when the connection is lost; the resumed connection carries exchanges with identifiers {:?}", ids));
     } else {
         rep.sample(|| format!("{id}: identifier {aid} reused after {allocated} allocations; resumed connection carries identifiers {:?}", ids));
+    }
+}
+
+/// The premise at its edge: one operation stays outstanding while 65 534 further identifiers are allocated (each of those
+/// operations acknowledged before the next) - the largest number the property allows. None of them may carry the outstanding
+/// identifier, none may be zero; the 65 535 identifiers seen are then all different.
+fn full_cycle_with_one_outstanding(rep: &mut Rep, id: &str, start: u16) {
+    use crate::sim::{Cmd, Sim};
+    use crate::spec::{ConnSpec, OpSpec, PubSpec, SubSpec, UnsubSpec};
+    let mut sim = Sim::new(rep.seed);
+    sim.log_enabled = false;
+    sim.cmd(Cmd::Connect(ConnSpec::default()));
+    sim.settle();
+    sim.feed_packet(&SPacket::Connack { session_present: false, reason: 0, props: vec![] });
+    sim.settle();
+    sim.cmd(Cmd::Run);
+    sim.settle();
+    sim.parse_wire();
+    sim.handles[0].as_ref().unwrap().verif_seed_ids(start, 1);
+    let ident = |sim: &mut Sim, before: usize| -> Option<(u16, u8)> {
+        sim.parse_wire();
+        sim.wire[before..].iter().find_map(|w| match &w.pkt {
+            Ok(CPacket::Publish(p)) => p.id.map(|i| (i, p.qos)),
+            Ok(CPacket::Subscribe(x)) => Some((x.id, 8)),
+            Ok(CPacket::Unsubscribe(x)) => Some((x.id, 10)),
+            _ => None,
+        })
+    };
+    let before = sim.wire.len();
+    sim.start_op(0, OpSpec::Publish(PubSpec::simple(1, "held", b"a")));
+    sim.settle();
+    let Some((held, _)) = ident(&mut sim, before) else { return };
+    let mut seen = vec![false; 65536];
+    seen[held as usize] = true;
+    let mut allocated = 0usize;
+    let mut bad: Option<String> = None;
+    for j in 0..65_534usize {
+        let before = sim.wire.len();
+        let spec = match j % 4 {
+            0 => OpSpec::Publish(PubSpec::simple(1, "w", b"b")),
+            1 => OpSpec::Subscribe(SubSpec::simple("f")),
+            2 => OpSpec::Publish(PubSpec::simple(2, "w", b"c")),
+            _ => OpSpec::Unsubscribe(UnsubSpec::simple("f")),
+        };
+        sim.start_op(0, spec);
+        sim.settle();
+        let Some((pid, kind)) = ident(&mut sim, before) else {
+            bad = Some(format!("allocation {} after the outstanding operation: nothing identifiable was written; panics {:?}", j + 1, sim.panics));
+            break;
+        };
+        allocated += 1;
+        if pid == 0 {
+            bad = Some(format!("allocation {} carries packet identifier 0", j + 1));
+            break;
+        }
+        if pid == held {
+            bad = Some(format!("allocation {} after the outstanding operation carries its identifier {held} (fewer than 65 535 identifiers were allocated while it was outstanding)", j + 1));
+            break;
+        }
+        if seen[pid as usize] {
+            // legitimate (that operation was acknowledged), but then a full cycle cannot be 65 535 long: noted
+            rep.add("identifiers_seen_twice_within_one_cycle", 1);
+        }
+        seen[pid as usize] = true;
+        match kind {
+            1 => sim.feed_packet(&SPacket::Ack { kind: AckKind::Puback, id: pid, reason: 0, props: vec![], form: AckForm::Short2 }),
+            2 => {
+                sim.feed_packet(&SPacket::Ack { kind: AckKind::Pubrec, id: pid, reason: 0, props: vec![], form: AckForm::Short2 });
+                sim.settle();
+                sim.feed_packet(&SPacket::Ack { kind: AckKind::Pubcomp, id: pid, reason: 0, props: vec![], form: AckForm::Short2 });
+            }
+            8 => sim.feed_packet(&SPacket::Suback { id: pid, props: vec![], reasons: vec![0] }),
+            _ => sim.feed_packet(&SPacket::Unsuback { id: pid, props: vec![], reasons: vec![0] }),
+        }
+        sim.settle();
+        if j % 4096 == 4095 {
+            sim.wire.clear();
+            sim.ops.truncate(1);
+        }
+    }
+    rep.add("evaluations", 1);
+    rep.add("id_consuming_operations", allocated as i64);
+    rep.add("full_cycles_with_one_operation_outstanding", 1);
+    rep.distinct(&("full-cycle", start));
+    for p in sim.panics.clone() {
+        rep.violation(&format!("C11/panic/{p}"), id, &format!("panic: {p}"));
+    }
+    match bad {
+        Some(b) => rep.violation("C11/duplicate-packet-id/full-cycle", id, &format!("counter seeded at {start}, operation with identifier {held} left outstanding: {b}")),
+        None => rep.sample(|| format!("{id}: identifier {held} outstanding, {allocated} further allocations, all different from it and non-zero")),
     }
 }
